@@ -146,6 +146,20 @@ func runC16(e *Env) {
 		marker := func(id string) rux.HandlerFunc {
 			return func(c *rux.Context) { recOf(c).Ev("gmw:%s", id) }
 		}
+		if t.Idx%2 == 1 {
+			// the application's own not-found page (no global middleware on these routers)
+			router.NotFound(func(c *rux.Context) {
+				c.SetStatus(404)
+				c.WriteString("custom-not-found")
+			})
+		}
+		if t.Idx%3 == 1 {
+			// an unrelated group registered before: no middleware argument, Use() in its body
+			router.Group("/adm", func() {
+				router.Use(marker("leaked-from-the-adm-group"))
+				router.GET("/x", func(c *rux.Context) { c.WriteString("adm") })
+			})
+		}
 		// middleware handed to Resource itself, and enclosing groups; slices with spare
 		// capacity on purpose (built by successive appends)
 		var resMW []rux.HandlerFunc
@@ -184,6 +198,9 @@ func runC16(e *Env) {
 		full, _ := RefNormalize(prefix+own, false)
 		wantTriples := map[string]bool{}
 		wantNames := map[string]bool{}
+		if t.Idx%3 == 1 {
+			wantTriples["GET /adm/x "] = true // the harness's own unrelated route
+		}
 		mounts := []string{full}
 		if second {
 			mounts = append(mounts, "/second/"+resName)
